@@ -345,6 +345,20 @@ def runHistory {α : Type} (g : Group α) : List Access → List (Except ErrKind
   | [] => []
   | a :: rest => (accessS g a).1 :: runHistory (accessS g a).2 rest
 
+/-! ### several groups in one instance: every group keeps its own cache -/
+
+/-- one access to the group at position `i` of an instance (`ann.AnnotationGroupSequence[i]`, the object that
+`get_annotation_group(s)` return): the answer and the instance afterwards -/
+def stepInst {α : Type} (gs : List (Group α)) (i : Nat) (a : Access) : Except ErrKind (Obs α) × List (Group α) :=
+  match gs[i]? with
+  | none => (.error .index, gs)
+  | some g => ((accessS g a).1, gs.set i (accessS g a).2)
+
+/-- a history of accesses to the groups of one instance, in any interleaving -/
+def runInst {α : Type} : List (Group α) → List (Nat × Access) → List (Nat × Except ErrKind (Obs α))
+  | _, [] => []
+  | gs, (i, a) :: rest => (i, (stepInst gs i a).1) :: runInst (stepInst gs i a).2 rest
+
 /-! ### measurements: `none` is NaN -/
 
 structure MeasEnc (β : Type) where
